@@ -530,3 +530,45 @@ func VerifC06_OverlappingRefreshCancelled() {
 		verif_Assert(c06timeIdx(got.LastAdvertisementTime) == 2, "a refresh that completes without error leaves the newest record visible, even if it overlapped a cancelled one")
 	}
 }
+
+// C06: a refresh cancelled part-way (after a source already advanced a
+// provider), then a lookup miss for another provider, then a refresh that
+// completes: the advanced record is visible — whatever the lookup miss did in
+// between to the writer-side bookkeeping.
+func VerifC06_CancelledThenMissThenRefresh() {
+	old := c06pids
+	c06pids = []peer.ID{"P"}
+	defer func() { c06pids = old }()
+	w := c06new()
+	w.seed() // P at time 1
+	// refresh 2: s1 reports P at time 2, s2 finds the context cancelled
+	w.srcs[0].content["P"] = c06entry{present: true, ti: 2}
+	w.srcs[1].fail, w.srcs[1].cancel = true, true
+	w.cx.cancelled = false
+	err := w.pc.Refresh(w.cx)
+	verif_Assert(err != nil, "the cancelled refresh reports the cancellation")
+	w.srcs[1].fail, w.srcs[1].cancel = false, false
+	w.cx.cancelled = false
+	// a lookup miss for an unknown provider (found at a source or not)
+	if verif_Bool("missFound") {
+		w.srcs[1].content["Q"] = c06entry{present: true, ti: 1}
+	}
+	_, gerr := w.pc.Get(context.Background(), "Q")
+	verif_Assert(gerr == nil, "lookup succeeds")
+	if verif_Bool("clockAdvances") {
+		w.tick()
+	}
+	// refresh 3 completes; the sources still report P at time 2
+	verif_Assert(w.pc.Refresh(w.cx) == nil, "the refresh completes")
+	verif_Reach("third refresh")
+	got, err := w.pc.Get(context.Background(), "P")
+	verif_Assert(err == nil && got != nil, "the provider is returned")
+	if got != nil {
+		verif_Assert(c06timeIdx(got.LastAdvertisementTime) == 2, "after a refresh that completed without error lookups show the most recent record, whatever failed or was looked up before")
+	}
+	for _, pi := range w.pc.List() {
+		if pi.AddrInfo.ID == "P" {
+			verif_Assert(c06timeIdx(pi.LastAdvertisementTime) == 2, "listings show the most recent record")
+		}
+	}
+}
